@@ -28,7 +28,9 @@ def gen_coeff(src, maxdigits=PREC):
     n = src.weighted([(4, None), (2, 1), (2, 2), (2, 17), (2, 33), (4, 34)])
     if n is None or n > maxdigits:
         n = src.int(1, maxdigits)
-    shape = src.weighted([(6, "rand"), (2, "nines"), (2, "one0"), (2, "five0"), (3, "tz"), (1, "zero"), (1, "one")])
+    shape = src.weighted([(6, "rand"), (2, "nines"), (2, "one0"), (2, "five0"), (3, "tz"), (1, "zero"), (1, "one"), (2, "declets")])
+    if shape == "declets":
+        return gen_coeff_declets(src, maxdigits)
     if shape == "zero":
         return "0"
     if shape == "one":
@@ -44,6 +46,24 @@ def gen_coeff(src, maxdigits=PREC):
         k = src.int(0, n - 1)
         return first + src.digits(n - 1 - k) + "0" * k
     return first + src.digits(n - 1)
+
+
+DECLETS = ["000", "000", "000", "001", "009", "010", "099", "100", "500", "900", "999"]
+
+
+def gen_coeff_declets(src, maxdigits=PREC):
+    """Coefficient built from the 3-digit groups in which decimal128 stores it (one leading digit + 11 declets): the number of digits is
+    often one where a new group begins (1, 4, 7, ... 34), the first digit is often small, the groups are often 000 / 999 / 001 ..."""
+    if src.bool(0.6):
+        n = min(maxdigits, 1 + 3 * src.int(0, 11))
+    else:
+        n = src.int(1, maxdigits)
+    lead = n % 3 or 3
+    first = src.choice(["1", "2", "3", "9"]) if src.bool(0.7) else str(src.int(1, 9))
+    out = first + src.digits(lead - 1)
+    for _ in range((n - lead) // 3):
+        out += src.choice(DECLETS) if src.bool(0.7) else src.digits(3)
+    return out
 
 
 def gen_exp(src):
